@@ -703,6 +703,12 @@ impl File {
             if self.direct_io {
                 ctx.fs.direct_io_fds.insert(new_fd);
             }
+            if !self.readable {
+                ctx.fs.write_only_fds.insert(new_fd);
+            }
+            if !self.writable {
+                ctx.fs.read_only_fds.insert(new_fd);
+            }
 
             Ok(File {
                 fd: new_fd,
@@ -953,6 +959,8 @@ impl Drop for File {
         FsContext::current_if_set(|ctx| {
             ctx.fs.open_handles.swap_remove(&self.fd);
             ctx.fs.direct_io_fds.swap_remove(&self.fd);
+            ctx.fs.write_only_fds.swap_remove(&self.fd);
+            ctx.fs.read_only_fds.swap_remove(&self.fd);
         });
     }
 }
@@ -1314,6 +1322,13 @@ impl OpenOptions {
             let direct_io = self.direct_io || (self.custom_flags & O_DIRECT) != 0;
             if direct_io {
                 ctx.fs.direct_io_fds.insert(fd);
+            }
+            // Access mode, for consumers that only see the fd (io_uring).
+            if !self.read {
+                ctx.fs.write_only_fds.insert(fd);
+            }
+            if !(self.write || self.append) {
+                ctx.fs.read_only_fds.insert(fd);
             }
 
             Ok(File::from_parts(
